@@ -157,6 +157,20 @@ func (x *Ex) genFuncsMore(body *LeanFile) {
 		{"", "", "ApplyForFile"},
 		{"", "", "ApplyForReader"},
 	})
+	// the lead-image filter and its two scorers (Model/DocFilters.lean: leadImage, imageScore)
+	x.bodyGroup(body, "leadImageBodies", []string{"C08"}, [][3]string{
+		{"internal/filter/docfilter", "LeadImageFinder", "Process"},
+		{"internal/filter/docfilter", "LeadImageFinder", "findLeadImage"},
+		{"internal/filter/docfilter", "LeadImageFinder", "getImageScore"},
+		{"internal/filter/docfilter", "LeadImageFinder", "getLeadHeuristics"},
+		{"internal/filter/docfilter/scorer", "ImageDomDistanceScorer", "GetImageScore"},
+		{"internal/filter/docfilter/scorer", "ImageDomDistanceScorer", "compute"},
+		{"internal/filter/docfilter/scorer", "ImageHasFigureScorer", "GetImageScore"},
+		{"internal/filter/docfilter/scorer", "ImageHasFigureScorer", "compute"},
+		{"internal/filter/docfilter", "NestedElementRetainer", "Process"},
+		{"internal/domutil", "", "GetNodeDepth"},
+		{"internal/domutil", "", "GetParentNodes"},
+	})
 	// reference resolution (Model/AbsURL.lean)
 	x.bodyGroup(body, "urlBodies", []string{"C06", "C16"}, [][3]string{
 		{"internal/stringutil", "", "CreateAbsoluteURL"},
